@@ -1,6 +1,7 @@
 import OxiModel.Props.C08
 import OxiModel.EvaluateProofs
 import OxiModel.Decision
+import OxiModel.Props.C10
 /-
   C13 — a timeout expiring at any moment still yields a correct result.
   The deadline only ever *skips* work: reductions, compression trials, frames. The theorems show
@@ -96,6 +97,41 @@ theorem never_larger_any_expiry (input : Bytes) (candidateAt : Option Nat → By
   by_cases h : input.length ≤ (candidateAt e).length
   · right; simp [h]
   · left; simp [h]; omega
+
+/-! ### frames of an animation: each one is recompressed behind its own look at the clock -/
+
+/-- `recompress_frames` under a deadline: frame `k` is looked at only if the clock has not run out at
+    its check (`live k`), and then replaced only by a strictly smaller stream (`fresh k`) -/
+def framesUnderDeadline (fs : List Frame) (live : Nat → Bool) (fresh : Nat → Option Bytes) : List Frame :=
+  fs.zipIdx.map fun p => if live p.2 then C10.recompressFrame p.1 (fresh p.2) else p.1
+
+/-- **Whatever the expiry position, an animation keeps all its frames**: as many frames, each with its
+    geometry, timing and disposal fields, each with data that is the original or strictly shorter -
+    in particular never emptied (the seeded change C13h left skipped frames without data). -/
+theorem frames_any_expiry (fs : List Frame) (live : Nat → Bool) (fresh : Nat → Option Bytes) :
+    (framesUnderDeadline fs live fresh).length = fs.length ∧
+    ∀ k (hk : k < fs.length), ∃ g, (framesUnderDeadline fs live fresh)[k]? = some g ∧
+      { g with data := [] } = { fs[k] with data := [] } ∧ g.data.length ≤ fs[k].data.length ∧
+      (g.data = fs[k].data ∨ g.data.length < fs[k].data.length) := by
+  constructor
+  · simp [framesUnderDeadline]
+  · intro k hk
+    unfold framesUnderDeadline
+    rw [List.getElem?_map, List.getElem?_zipIdx, List.getElem?_eq_getElem hk]
+    simp only [Option.map_some, Nat.zero_add]
+    by_cases hl : live k = true
+    · simp only [hl, if_true]
+      refine ⟨_, rfl, (C10.recompress_keeps_fields fs[k] (fresh k)).1, (C10.recompress_keeps_fields fs[k] (fresh k)).2, ?_⟩
+      unfold C10.recompressFrame
+      cases fresh k with
+      | none => left; rfl
+      | some d =>
+        simp only
+        split
+        · right; simp only; omega
+        · left; rfl
+    · simp only [hl, Bool.false_eq_true, if_false]
+      exact ⟨_, rfl, rfl, Nat.le_refl _, Or.inl rfl⟩
 
 /-- Non-vacuity: expiry at the 2nd check lets the first reduction happen and skips the second. -/
 example : runGuarded ⟨true, true, true, true, none, false, false⟩
